@@ -306,7 +306,8 @@ def bp_exP : Store Nat :=
 
 theorem bp_exP_inv : MaxQ.Inv bp_exP := by decide +kernel
 
-/-- well-formed but NOT ordered (neither as a max-heap nor as a min-max heap) -/
+/-- well-formed but NOT ordered as a max-heap (it happens to be a valid min-max heap; for a store that is neither see
+`swf_exU` in `SortedWF.lean`) -/
 def bp_exW : Store Nat :=
   { map := #[(⟨1, 10⟩, 5), (⟨2, 20⟩, 0), (⟨3, 30⟩, 7), (⟨4, 40⟩, 1), (⟨5, 50⟩, 3)],
     heap := #[1, 0, 2, 3, 4], qp := #[1, 0, 2, 3, 4], size := 5 }
